@@ -2,7 +2,10 @@
     Two occurrences of the same label are the same object; a mutation of an object rewrites
     every occurrence of its label (in the caller's handles AND in the circuits), which is
     exactly what a heap with references does on acyclic object graphs.  copy(g) follows the
-    per-class __copy__ rules (deep or shallow in the gate-valued fields).  No proofs here. *)
+    per-class __copy__ rules (deep or shallow in the gate-valued fields).
+    Circuits come into being empty (builder circuits) or through the list constructor
+    Circuit([g1, ...]), which keeps the caller's objects unless [ctor] (= it copies); a circuit's
+    own gates can be mutated through circuit.gates[i].  No proofs here. *)
 From Coq Require Import List Arith ZArith Bool Lia.
 Import ListNotations.
 
@@ -77,7 +80,9 @@ Inductive event :=
 | EMutate (h : nat) (path : list nat) (ps : list Z)        (* attribute assignment / mutator on a reachable object *)
 | ESetKid (h : nat) (path : list nat) (i : nat) (h2 : nat) (* gate-valued field := another caller object *)
 | EAppendGate (c h : nat) | EPrependGate (c h : nat)
-| EAppendCircuit (c c2 : nat) | EPrependCircuit (c c2 : nat).
+| EAppendCircuit (c c2 : nat) | EPrependCircuit (c c2 : nat)
+| ENewCircuitOf (hs : list nat)                            (* other = Circuit([handles...]) *)
+| EMutateGate (c i : nat) (path : list nat) (ps : list Z). (* mutation through circuit c's gate list: c.gates[i]..., *)
 
 Definition upd_circ (cs : list (list gobj)) (c : nat) (f : list gobj -> list gobj) : list (list gobj) :=
   match nth_error cs c with Some l => replace_nth c (f l) cs | None => cs end.
@@ -85,18 +90,24 @@ Definition upd_circ (cs : list (list gobj)) (c : nat) (f : list gobj -> list gob
 (** does the object labelled x occur inside new?  (obj.tgate = new with obj inside new would tie a knot) *)
 Definition occurs (x : nat) (g : gobj) : bool := existsb (Nat.eqb x) (ids g).
 
-Definition step (deep : nat -> bool) (s : state) (e : event) : state :=
+Definition objs_of (s : state) (hs : list nat) : list gobj :=
+  flat_map (fun h => match nth_error (handles s) h with Some g => [g] | None => [] end) hs.
+
+(** relabel-everywhere: what an assignment to an attribute of the object labelled x does to the heap *)
+Definition relabel (F : gobj -> gobj) (s : state) : state :=
+  {| handles := map F (handles s); circuits := map (map F) (circuits s); next_id := next_id s |}.
+
+Definition step (deep : nat -> bool) (ctor : bool) (s : state) (e : event) : state :=
   match e with
   | ENew cls ps kids =>
-      let ks := flat_map (fun h => match nth_error (handles s) h with Some g => [g] | None => [] end) kids in
+      let ks := objs_of s kids in
       {| handles := handles s ++ [GObj (next_id s) cls ps ks]; circuits := circuits s; next_id := Datatypes.S (next_id s) |}
   | ENewCircuit => {| handles := handles s; circuits := circuits s ++ [[]]; next_id := next_id s |}
   | EMutate h path ps =>
       match nth_error (handles s) h with
       | Some g =>
         match follow g path with
-        | Some t => {| handles := map (set_params (obj_id t) ps) (handles s);
-                       circuits := map (map (set_params (obj_id t) ps)) (circuits s); next_id := next_id s |}
+        | Some t => relabel (set_params (obj_id t) ps) s
         | None => s
         end
       | None => s
@@ -107,8 +118,7 @@ Definition step (deep : nat -> bool) (s : state) (e : event) : state :=
         match follow g path with
         | Some t =>
           if occurs (obj_id t) new then s
-          else {| handles := map (set_kid (obj_id t) i new) (handles s);
-                  circuits := map (map (set_kid (obj_id t) i new)) (circuits s); next_id := next_id s |}
+          else relabel (set_kid (obj_id t) i new) s
         | None => s
         end
       | _, _ => s
@@ -137,23 +147,62 @@ Definition step (deep : nat -> bool) (s : state) (e : event) : state :=
                   {| handles := handles s; circuits := upd_circ (circuits s) c (fun l => o' ++ l); next_id := n |}
       | None => s
       end
+  | ENewCircuitOf hs =>
+      if ctor then
+        let '(o', n) := copy_list deep (next_id s) (objs_of s hs) in
+        {| handles := handles s; circuits := circuits s ++ [o']; next_id := n |}
+      else {| handles := handles s; circuits := circuits s ++ [objs_of s hs]; next_id := next_id s |}
+  | EMutateGate c i path ps =>
+      match nth_error (circuits s) c with
+      | Some l =>
+        match nth_error l i with
+        | Some g =>
+          match follow g path with
+          | Some t => relabel (set_params (obj_id t) ps) s
+          | None => s
+          end
+        | None => s
+        end
+      | None => s
+      end
   end.
-Definition run (deep : nat -> bool) (es : list event) : state := fold_left (step deep) es init.
+Definition run (deep : nat -> bool) (ctor : bool) (es : list event) : state := fold_left (step deep ctor) es init.
 
 (** reference semantics of the builder calls: circuits hold VALUES, taken when a gate is added;
-    mutations of the caller's objects never touch them *)
-Definition vstep (s : state) (v : list (list gval)) (e : event) : list (list gval) :=
-  let vupd c f := match nth_error v c with Some l => replace_nth c (f l) v | None => v end in
-  match e with
-  | ENewCircuit => v ++ [[]]
-  | EAppendGate c h => match nth_error (handles s) h with Some g => vupd c (fun l => l ++ [erase g]) | None => v end
-  | EPrependGate c h => match nth_error (handles s) h with Some g => vupd c (fun l => erase g :: l) | None => v end
-  | EAppendCircuit c c2 => match nth_error v c2 with Some o => vupd c (fun l => l ++ o) | None => v end
-  | EPrependCircuit c c2 => match nth_error v c2 with Some o => vupd c (fun l => o ++ l) | None => v end
-  | _ => v
+    mutations of the caller's objects never touch them.  The ghost keeps, per circuit, a flag
+    "by value" (false for a circuit the list constructor made from the caller's objects without
+    copying: the known finding) and the value list the circuit must denote.
+    append_circuit(c, c2) takes what c2 denotes NOW (for a by-value c2 that is its ghost value). *)
+Definition ghost := list (bool * list gval).
+
+(** the value-level counterpart of a mutation at the end of a path *)
+Fixpoint vset (path : list nat) (ps : list Z) (v : gval) {struct path} : gval :=
+  match v with
+  | GVal cls p ks =>
+    match path with
+    | [] => GVal cls ps ks
+    | i :: path' => GVal cls p (match nth_error ks i with Some k => replace_nth i (vset path' ps k) ks | None => ks end)
+    end
   end.
-Fixpoint vrun (deep : nat -> bool) (s : state) (v : list (list gval)) (es : list event) : state * list (list gval) :=
+
+Definition gupd (gh : ghost) (c : nat) (f : list gval -> list gval) : ghost :=
+  match nth_error gh c with Some (b, l) => replace_nth c (b, f l) gh | None => gh end.
+Definition denotes (s : state) (c : nat) : option (list gval) := option_map (map erase) (nth_error (circuits s) c).
+
+Definition vstep (ctor : bool) (s : state) (gh : ghost) (e : event) : ghost :=
+  match e with
+  | ENewCircuit => gh ++ [(true, [])]
+  | ENewCircuitOf hs => gh ++ [(ctor, map erase (objs_of s hs))]
+  | EAppendGate c h => match nth_error (handles s) h with Some g => gupd gh c (fun l => l ++ [erase g]) | None => gh end
+  | EPrependGate c h => match nth_error (handles s) h with Some g => gupd gh c (fun l => erase g :: l) | None => gh end
+  | EAppendCircuit c c2 => match denotes s c2 with Some o => gupd gh c (fun l => l ++ o) | None => gh end
+  | EPrependCircuit c c2 => match denotes s c2 with Some o => gupd gh c (fun l => o ++ l) | None => gh end
+  | EMutateGate c i path ps =>
+      gupd gh c (fun l => match nth_error l i with Some v => replace_nth i (vset path ps v) l | None => l end)
+  | _ => gh
+  end.
+Fixpoint vrun (deep : nat -> bool) (ctor : bool) (s : state) (gh : ghost) (es : list event) : state * ghost :=
   match es with
-  | [] => (s, v)
-  | e :: es' => vrun deep (step deep s e) (vstep s v e) es'
+  | [] => (s, gh)
+  | e :: es' => vrun deep ctor (step deep ctor s e) (vstep ctor s gh e) es'
   end.
